@@ -669,7 +669,7 @@ func genCase(r *common.Rng, search bool) Case {
 	case 3: // first accepted request is CONNECT
 		if r.Chance(1, 2) {
 			q := c.Reqs[nfail]
-			q.Method, q.Target, q.Body, q.WaitContinue = "CONNECT", common.Pick(r, []string{"example.com:443", "1.2.3.4:22", "[2001:db8::1]:443", "example.com", "example.com:x", ":80"}), Body{Kind: "none"}, false
+			q.Method, q.Target, q.Body, q.WaitContinue = "CONNECT", common.Pick(r, []string{"example.com:443", "1.2.3.4:22", "[2001:db8::1]:443", "example.com", "example.com:99999", ":80"}), Body{Kind: "none"}, false
 			q.SendHost, q.HostHdr, q.Host = true, q.Target, q.Target
 			c.Reqs[nfail] = q
 			c.Kind = "connect-first"
